@@ -1339,6 +1339,58 @@ def _tip_schemes(T):
     return out
 
 
+def _model_world(kind):
+    """make(indices) for specs.histories.explore: REAL BDSKModel (2 epochs, rho at the present, removal probability) / BirthDeathModel over a
+    real TimeTreeModel with serial tips"""
+    import torchtree.evolution.bdsk as bd
+    import torchtree.evolution.birth_death as cbd
+    from torchtree.core.parameter import Parameter
+    from specs import treemodels
+    t64 = lambda v: torch.tensor(v, dtype=torch.float64)
+    names = ["A", "B", "C", "D"]
+    tree = ((0, 1), (2, 3))
+    tips = [0.0, 0.5, 0.0, 1.0]
+    heights = [t64([1.2, 2.0, 3.0]), t64([2.4, 1.5, 3.3]), t64([0.9, 1.1, 4.0])]
+    m_ep = 2 if kind == "bdsk" else 1
+    V = {"a": [t64([1.5, 2.0][:m_ep]), t64([0.8, 2.5][:m_ep]), t64([2.2, 1.1][:m_ep])],
+         "b": [t64([1.0, 0.7][:m_ep]), t64([1.4, 0.5][:m_ep]), t64([0.6, 0.9][:m_ep])],
+         "c": [t64([0.3, 0.5][:m_ep]), t64([0.6, 0.2][:m_ep]), t64([0.4, 0.45][:m_ep])],
+         "rho": [t64([0.4]), t64([0.7]), t64([0.15])],
+         "origin": [t64([5.0]), t64([6.5]), t64([4.5])]}
+
+    def make(idx):
+        idx = idx or (0,) * 6
+        tm, _ = treemodels.build_timetree(tree, names, tips, heights[idx[0]].clone())
+        ps = [Parameter(k, V[k][idx[j + 1]].clone()) for j, k in enumerate(("a", "b", "c", "rho", "origin"))]
+        if kind == "bdsk":
+            m = bd.BDSKModel("bdsk", tm, ps[0], ps[1], ps[2], rho=ps[3], origin=ps[4], survival=True)
+        else:
+            m = cbd.BirthDeathModel("bd", tm, ps[0], ps[1], ps[2], ps[3], ps[4], survival=True)
+        return (lambda: m()), [tm._internal_heights] + ps, {"node_heights": (lambda: tm.node_heights)}, [heights] + [V[k] for k in ("a", "b", "c", "rho", "origin")]
+    return make
+
+
+def ob_model_history(kind, depth):
+    def body():
+        from specs import histories
+        bad, n = histories.explore(_model_world(kind), depth, inplace=(depth <= 2))
+        if bad is not None:
+            hist, got, want = bad
+            raise Refuted("%s model after the history %s returns %s, a freshly built model holding the current values returns %s" % (kind, hist, got, want),
+                          witness={"kind": kind, "history": hist}, replay={"kind": "custom", "contract": "C09", "func": "replay_model_history", "args": {"kind": kind, "depth": depth}}, confirmed=True)
+        return {"backend": "heap", "cases": n, "statement": "%d histories of parameter / height updates, reads and evaluations: the %s model returns the density of the current values" % (n, kind)}
+    return Ob("C09.model.history[%s,depth<=%d]" % (kind, depth), "B", body,
+              clause="BDSKModel() / BirthDeathModel() return the density of the CURRENT rates, sampling parameters, origin and node heights after every history", funcs=FUNCS)
+
+
+def replay_model_history(args):
+    try:
+        ob_model_history(args["kind"], args["depth"]).fn()
+    except Refuted as e:
+        return False, e.detail
+    return True, "held"
+
+
 def obligations(tier, seed):
     obs = []
     thorough = tier == "thorough"
@@ -1454,6 +1506,9 @@ def obligations(tier, seed):
     trials = 10 if thorough else 3
     obs.append(Ob("C09.oracle.closed_form_vs_master_equations", "B", lambda: _oracle_vs_ode(40 if thorough else 12, seed),
                   clause="trusted base guard: literature formula ≡ master equations", funcs=FUNCS))
+    for kind_ in ("bdsk", "birth_death"):
+        obs.append(ob_model_history(kind_, 2))
+        obs.append(ob_model_history(kind_, 3))
     for name in ME_CONFIGS:
         obs.append(Ob("C09.master_equations[%s]" % name, "B", ob_master(name, trials, seed),
                       clause="matches numerical integration of the birth-death master equations along the tree", funcs=FUNCS))
